@@ -162,12 +162,79 @@ func (h *wireHooks) Call(in *Interp, c *CallCtx, k func(*State, []Val)) bool {
 				if n, ok := staticSliceLen(c.Fr, c.ArgEs[1]); ok {
 					ln = intVal(n)
 				}
+				sym := &Sym{Kind: "op", Name: "raw", Arg: ln, Pos: c.Site.Pos(), Extra: "r"}
+				c.St.emit(sym)
+				if a := c.Args[1]; a.K == KAlloc && a.Obj != 0 {
+					// remember which read filled this buffer: a later binary.*Endian.UintN(buf) turns
+					// that read into a fixed-width integer read
+					if in.readFills == nil {
+						in.readFills = map[int]*Sym{}
+					}
+					in.readFills[a.Obj] = sym
+				}
+				k(c.St, []Val{unknown, {K: KNil}})
+				return true
+			}
+		case "(encoding/binary.bigEndian).Uint16", "(encoding/binary.bigEndian).Uint32", "(encoding/binary.bigEndian).Uint64",
+			"(encoding/binary.littleEndian).Uint16", "(encoding/binary.littleEndian).Uint32", "(encoding/binary.littleEndian).Uint64":
+			if len(c.Args) == 1 && c.Args[0].K == KAlloc && c.Args[0].Obj != 0 && in.readFills != nil {
+				if sym := in.readFills[c.Args[0].Obj]; sym != nil {
+					n := map[string]int64{"Uint16": 2, "Uint32": 4, "Uint64": 8}[fn.Name()]
+					if ln := in.resolve(sym.Arg, c.St); ln.K == KConst {
+						if sz, ok := constant.Int64Val(ln.C); ok && sz == n {
+							order := "BE"
+							if strings.Contains(fn.FullName(), "littleEndian") {
+								order = "LE"
+							}
+							id := in.newSym()
+							sym.Name, sym.Extra, sym.ID, sym.Arg = fmt.Sprintf("fixed%d", n), "r:"+order, id, Val{}
+							k(c.St, []Val{{K: KSym, Sym: id, T: sig.Results().At(0).Type()}})
+							return true
+						}
+					}
+				}
+			}
+		case "io.ReadFull#unused":
+			if len(c.Args) == 2 {
+				ln := lenOfVal(c.Args[1])
 				c.St.emit(&Sym{Kind: "op", Name: "raw", Arg: ln, Pos: c.Site.Pos(), Extra: "r"})
 				k(c.St, []Val{unknown, {K: KNil}})
 				return true
 			}
 		}
+		if strings.HasPrefix(fn.FullName(), "(encoding/binary.bigEndian).PutUint") || strings.HasPrefix(fn.FullName(), "(encoding/binary.littleEndian).PutUint") {
+			// binary.BigEndian.PutUintN(buf, v): remember the content of the buffer
+			if len(c.Args) == 2 && c.Args[0].K == KAlloc && c.Args[0].Obj != 0 {
+				bits := strings.TrimPrefix(fn.Name(), "PutUint")
+				order := "BE"
+				if strings.Contains(fn.FullName(), "littleEndian") {
+					order = "LE"
+				}
+				if m := c.St.heap[c.Args[0].Obj]; m != nil {
+					m["put"] = in.resolve(c.Args[1], c.St)
+					m["putinfo"] = Val{K: KExpr, Key: bits + ":" + order}
+				}
+				k(c.St, nil)
+				return true
+			}
+		}
 		if c.Iface && fn.Name() == "Write" && len(c.Args) == 1 {
+			if a := c.Args[0]; a.K == KAlloc && a.Obj != 0 {
+				if m := c.St.heap[a.Obj]; m != nil {
+					if info, ok := m["putinfo"]; ok {
+						parts := strings.Split(info.Key, ":")
+						n := map[string]int{"16": 2, "32": 4, "64": 8}[parts[0]]
+						// the buffer must be exactly as long as the integer put into it
+						if len(a.Elems) > 0 && a.Elems[0].K == KConst {
+							if sz, ok := constant.Int64Val(a.Elems[0].C); ok && int(sz) == n {
+								c.St.emit(&Sym{Kind: "op", Name: fmt.Sprintf("fixed%d", n), Arg: m["put"], Pos: c.Site.Pos(), Extra: "w:" + parts[1]})
+								k(c.St, []Val{unknown, {K: KNil}})
+								return true
+							}
+						}
+					}
+				}
+			}
 			ln := lenOfVal(c.Args[0])
 			if n, ok := staticSliceLen(c.Fr, c.ArgEs[0]); ok {
 				ln = intVal(n)
